@@ -1073,6 +1073,21 @@ SPECS["C18"]["level_note"] = SPECS["C18"]["level_note"].replace(
     "separate theorem yet);")
 
 
+# C02, server half: wake-driven Requests stream + execute() futures
+SPECS["C02"]["parts"] = SPECS["C02"]["parts"] + [C02_SERVER_PART]
+SPECS["C02"]["coq_targets"] = SPECS["C02"]["coq_targets"] + ["Checks/C02server.vo"]
+SPECS["C02"]["trusted_base"] = SPECS["C02"]["trusted_base"] + SRV_TB
+SPECS["C02"]["level_text"] += (
+    " Server side (part server-wake): the real Requests stream and every real execute() future are polled only after "
+    "their own wakers fired (response queue, response permits, server-side cancel queue, DelayQueue timers, abort "
+    "handles and the transport's registered wakers are never forced) and must reach exactly the outcomes of the "
+    "server model driven to a fixpoint (ServerWake.settle); the monitor c02s_ok (no execute() left running after its "
+    "cancel / deadline / the channel's drop, no finished handler or buffered response stuck while the sink is "
+    "writable, every delivered message read) runs on the real traces; its two statements (settle terminates, the "
+    "monitor accepts every model run) are pinned in ServerWakeSpec.v and tested by vm_compute on 25 000 scripts; "
+    "their proofs are in progress.")
+
+
 # ---------------------------------------------------------------------------------------------
 # Translator side condition shared by C16 and C09: the panic-site inventory of the anchored
 # sources must equal the pinned, justified map tools/panic_sites.json.
